@@ -93,7 +93,8 @@ MODEL_ERR = {"PM.Err.invalidStart": "invalidStart", "PM.Err.wrongActionType": "w
 
 
 def to_dict(m):
-    d = {"task_uuid": m["uuid"], "task_level": list(m["level"]), "timestamp": 1.0, "body": m["body"]}
+    # timestamps are whatever the writers' wall clocks said: not monotonic, equal, negative (the parser never orders by them)
+    d = {"task_uuid": m["uuid"], "task_level": list(m["level"]), "timestamp": float((m["body"] * 7919) % 13 - 4) / 2, "body": m["body"]}
     if "atype" in m:
         d["action_type"] = m["atype"]
         if m["body"] % 7 == 3:
@@ -211,10 +212,13 @@ def oracle_wf(ctx, case, steps, parser):
     cut = case.get("cut", len(msgs))
     pulled = [0]
 
+    from pyrsistent import pmap
+
     def lazy():
         for m in msgs[:cut]:
             pulled[0] += 1
-            yield to_dict(m)
+            # messages are mappings: plain dicts, or the persistent maps `WrittenMessage.as_dict()` hands out
+            yield pmap(to_dict(m)) if m["body"] % 3 == 1 else to_dict(m)
         if cut < len(msgs):
             raise Truncated()
     events = []
